@@ -339,8 +339,8 @@ pub fn run(ctx: &Ctx, out: &mut Out) {
         judge_refusal(ctx, out, &what, w, &seed, must_refuse, expect);
     }
     // thorough: random in-range combinations, both sources, all getters compared
-    if ctx.thorough {
-        for k in 0..ctx.share(0, 5_000) {
+    {
+        for k in 0..ctx.share(2_000, 20_000) {
             let port = free_port(false);
             let bs = rng.range(1, 64);
             let fp = rng.range(0, 50);
